@@ -443,12 +443,12 @@ def aliasing_oracle(i_seed):
 # --------------------------------------------------------------------------------------------
 def plan_call(rng, d):
     """(kind, seed): the input is rebuilt from the seed wherever the call runs"""
-    return (rng.choice(["init", "init", "from", "from-json", "fn", "fn", "setattr", "gen", "gen", "afn", "agen"]), rng.getrandbits(32))
+    return (rng.choice(["init", "init", "init-dict", "init-dict-kw", "from", "from-json", "fn", "fn", "setattr", "gen", "gen", "afn", "agen"]), rng.getrandbits(32))
 
 
 def build_input(d, kind, seed):
     rng = random.Random(seed)
-    if kind in ("init", "from", "from-json", "setattr"):
+    if kind in ("init", "init-dict", "init-dict-kw", "from", "from-json", "setattr"):
         data = {}
         for name, t, how in d["fields"]:
             if how == "required":
@@ -475,6 +475,15 @@ def build_input(d, kind, seed):
                 return json.dumps(data)
             except TypeError:
                 return data
+        if kind == "init-dict-kw":
+            # a positional mapping and keywords that override / complete it
+            ks = [k for k in data if k != "extra"]
+            rng.shuffle(ks)
+            kw = {k: data.pop(k) for k in ks[:rng.randint(0, len(ks))]}
+            for k in list(kw)[:1]:
+                if rng.random() < 0.4:
+                    data[k] = copy.deepcopy(kw[k])      # present in both
+            return (data, kw)
         return data
     if kind in ("gen", "afn", "agen"):
         n = rng.choice([0, 1, 2, 2, 5, "3", "x", -1, None])
@@ -500,6 +509,10 @@ def do_call(K, fn, d, kind, inp, state):
     try:
         if kind == "init":
             r = K(**inp)
+        elif kind == "init-dict":
+            r = K(inp)
+        elif kind == "init-dict-kw":
+            r = K(inp[0], **inp[1])
         elif kind in ("from", "from-json"):
             r = K.__from__(inp)
         elif kind == "setattr":
